@@ -18,6 +18,7 @@
 From SpyneV Require Export Base.Prelude Base.Digits Base.Ext.
 From SpyneV Require Export Wire.Utf8 Wire.Decimal.
 From SpyneV Require Import C08.IntModel C08.BinModel.
+From SpyneV Require Import Gen.DictDoc.
 From SpyneV Require Wire.Universe.
 
 (** * Document trees: what json.loads / yaml.load / msgpack.unpackb return.
@@ -296,8 +297,8 @@ Section Leaf.
         if is_msgpack then
           match k, l with
           | KInt _, LInt z =>
-              (* msgpack.py integer_to_bytes: -1<<63 <= value < 1<<64 *)
-              if (- 2 ^ 63 <=? z) && (z <? 2 ^ 64) then Ok (JInt z) else Ok (JBytes (str_int z))
+              (* msgpack.py integer_to_bytes: the range test is generated from the source *)
+              if mp_native_int z then Ok (JInt z) else Ok (JBytes (str_int z))
           | KBool, LBool b => Ok (JBool b)
           | KDouble, LDouble x =>
               (* msgpack.py _ret_number as an output handler: value in (True, False) -> int(value) *)
@@ -492,12 +493,16 @@ Section Struct.
       end
     else t.
 
-  (** the wrapper-stripping loop of _object_to_doc on an Array class: a single-occurrence
-      Array is replaced by its (repeated) member; a repeated Array class is left alone
-      (repaired: the pinned loop went on unwrapping) *)
-  Definition strip_arr (multi : bool) (t : dty) : bool * dty :=
-    if c_iw c && negb multi then match t with DArr e => (true, e) | _ => (multi, t) end
-    else (multi, t).
+  (** the wrapper-stripping loop of _object_to_doc.  Only Array classes are wrappers
+      inside a value (one member, _wrapper = True); the loop condition is generated from
+      the source: repaired, a repeated Array class (max_occurs > 1) is left alone, so
+      exactly one level is unwrapped; the pinned condition went on unwrapping. *)
+  Definition occ (multi : bool) : ext := if multi then PosInf else Fin 1.
+  Fixpoint strip_arr (multi : bool) (t : dty) : bool * dty :=
+    match t with
+    | DArr e => if c_iw c && strip_cond true (Fin 1) (occ multi) then strip_arr true e else (multi, t)
+    | _ => (multi, t)
+    end.
 
   (** _get_member_pairs *)
   Fixpoint member_pairs (rec : bool -> dty -> dval -> out jv) (ffs : list dfield) (v : dval)
@@ -507,7 +512,8 @@ Section Struct.
     | f :: r =>
         do val <- rec (dmulti f) (df_ty f) (getattr_val v (df_name f) i);
         do rest <- member_pairs rec r v (S i);
-        Ok (if negb (jv_is_null val) || (0 <? df_min f) || c_list c
+        (* `if val is not None or min_o > 0 or complex_as is list`, generated from the source *)
+        Ok (if member_written (jv_is_null val) (Fin (df_min f)) (c_list c)
             then (df_name f, val) :: rest else rest)
     end.
 
@@ -606,7 +612,7 @@ Section Struct.
     | kv :: r => do st' <- step_item rec ffs st kv; fold_items rec ffs st' r
     end.
 
-  (** _check_freq_dict *)
+  (** _check_freq_dict; the two comparisons are generated from the source *)
   Definition freq_ok (ffs : list dfield) (freq : list Z) : bool :=
     forallb (fun fn =>
                let f := fst fn in let n := snd fn in
@@ -614,7 +620,8 @@ Section Struct.
                                 | DArr _, Some 1 => (0, None)
                                 | _, _ => (df_min f, df_max f)
                                 end in
-               (mn <=? n) && (match mx with Some m => n <=? m | None => true end))
+               negb (freq_low (Fin n) (Fin mn))
+               && negb (freq_high (Fin n) (match mx with Some m => Fin m | None => PosInf end)))
             (combine ffs freq).
 
   (** the class-name key of a wrapper document, after bytes -> str *)
@@ -653,7 +660,10 @@ Section Struct.
     | DPrim kd => ldec nillable kd j
     | _ =>
         (* a null member is None (repaired); validate_native: nullable or value is not None *)
-        do r <- (match j with JNull => Ok DNone | _ => rec t j end);
+        do r <- (match j with
+                 | JNull => if null_member_is_none then Ok DNone else rec t j
+                 | _ => rec t j
+                 end);
         if c_soft c && negb nillable && is_none r then VFault else Ok r
     end.
 
@@ -730,23 +740,31 @@ Inductive sres :=
 Definition find_sig (sigs : list dsig) (n : text) : option dsig :=
   find (fun s => text_eqb (sg_name s) n) sigs.
 
+(** the single result of a method whose out_message wrapper is stripped *)
+Definition single_result (c : cfg) (s : dsig) (rets : list dval) : option (dfield * dval) :=
+  match c_iw c, sg_results s, rets with
+  | true, [r], [v] => Some (r, v)
+  | _, _, _ => None
+  end.
+
 Section Envelope.
   Variable c : cfg.
   Variable U : duniverse.
   Variable fuel : nat.
 
   (** DictDocument.decompose_incoming_envelope + gen_method_request_string:
-      [Ok (Some name)] / [Ok None] when the single key is not a method name string *)
-  Definition method_key (req : jv) : out (option text * jv) :=
+      [Ok (Some name, key is str, body)] / [Ok (None, ..)] when the single key is not a
+      method name string *)
+  Definition method_key (req : jv) : out (option text * bool * jv) :=
     match req with
     | JMap [(k, body)] =>
         match k with
-        | JStr s => Ok (Some s, body)
+        | JStr s => Ok (Some s, true, body)
         | JBytes b =>
             if key_bytes c then
-              match utf8_dec b with Some t => Ok (Some t, body) | None => Crash UnicodeError end
-            else Ok (None, body)
-        | _ => Ok (None, body)
+              match utf8_dec b with Some t => Ok (Some t, false, body) | None => Crash UnicodeError end
+            else Ok (None, false, body)
+        | _ => Ok (None, false, body)
         end
     | _ => VFault
     end.
@@ -766,24 +784,34 @@ Section Envelope.
     match method_key req with
     | VFault => SInvalid
     | Crash e => SCrash e
-    | Ok (None, _) => SNotFound
-    | Ok (Some n, body) =>
+    | Ok (None, _, _) => SNotFound
+    | Ok (Some n, is_str, body) =>
         match find_sig sigs n with
         | None => SNotFound
         | Some s =>
             let U' := ext_universe U s in
-            (* ignore_wrappers: doc.get(class_name) (either key form, after the repair);
-               otherwise the whole document is the wrapper document of the in_message *)
-            args_of s (d2o c U' fuel (DRef (in_cid U)) (if c_iw c then body else req))
+            (* ignore_wrappers: doc.get(class_name), where MessagePack's class_name is bytes:
+               a str key is found only when the lookup tries both forms (generated from the
+               source; repaired: it does), else the body is None; without ignore_wrappers the
+               whole document is the wrapper document of the in_message *)
+            let found := if key_bytes c && is_str && negb body_lookup_both_key_forms then JNull else body in
+            args_of s (d2o c U' fuel (DRef (in_cid U)) (if c_iw c then found else req))
         end
     end.
 
-  (** HierDictDocument.serialize for the RESPONSE message *)
+  (** HierDictDocument.serialize for the RESPONSE message: with ignore_wrappers the
+      out_message wrapper of a single result is replaced by that result; a None result
+      is null when the source has the `elif inst is not None` guard (generated), else it
+      went on to _to_dict_value *)
   Definition serve_response (s : dsig) (rets : list dval) : out jv :=
     let U' := ext_universe U s in
-    match c_iw c, sg_results s, rets with
-    | true, [r], [v] => o2d c U' fuel (dmulti r) (df_ty r) v
-    | _, _, _ => tdv c U' fuel (DRef (out_cid U)) (DObj (out_cid U) rets)
+    match single_result c s rets with
+    | Some (r, v) =>
+        if is_none v && negb single_none_is_null then
+          let '(multi', t') := strip_arr c (dmulti r) (df_ty r) in
+          if multi' then Ok JNull else tdv c U' fuel t' DNone
+        else o2d c U' fuel (dmulti r) (df_ty r) v
+    | None => tdv c U' fuel (DRef (out_cid U)) (DObj (out_cid U) rets)
     end.
 
   (** MessagePackRpc (ignore_wrappers=True): [0, msgid, name, params] ->
